@@ -93,7 +93,7 @@ CheckInit == [
   planAns |-> "none", planId |-> "", decision |-> "none", results |-> <<>>, installCalled |-> FALSE,
   needed |-> "none", nInsErr |-> 0, respEv |-> FALSE, reps |-> <<>>, lostExp |-> 0, lostSeen |-> 0,
   nRespTime |-> 0, rpcSeen |-> FALSE, rpcCount |-> 0, rpcOk |-> FALSE, failReason |-> "none",
-  attCheck |-> FALSE, tainted |-> FALSE, buildFail |-> FALSE, sid |-> 0, nResult |-> 0,
+  attCheck |-> FALSE, attInst |-> FALSE, tainted |-> FALSE, buildFail |-> FALSE, sid |-> 0, nResult |-> 0,
   progRep |-> <<>>, progTaken |-> <<>>, appsAtStart |-> <<>> ]
 
 \* the wait in force: what the policy asked for and what has been armed / fired (C12)
@@ -112,6 +112,10 @@ GhostInit == [
   w |-> WaitInit, rbTid |-> 0, rbFired |-> FALSE, rbRearm |-> FALSE,
   ctlOut |-> {}, ctlSrc |-> <<>>, busy |-> FALSE, lastPolCheck |-> [d |-> "none", src |-> "", n |-> 0],
   nPolCheck |-> 0, servedAt |-> 0, odPending |-> FALSE,
+  snap |-> <<>>, persisting |-> FALSE, cut |-> FALSE, pingFx |-> "none", runNo |-> 0,
+  twin |-> FALSE, ref |-> <<>>, cur |-> <<>>,
+  fi |-> 0, fiUnk |-> FALSE, startTm |-> 0, wfrPending |-> FALSE, wfrDone |-> FALSE, finish |-> [s |-> 0, ns |-> 0],
+  fsPlan |-> "", fsWritten |-> FALSE, finSet |-> FALSE, tvSet |-> "",
   c |-> CheckInit ]
 
 V(g, vs) == [g EXCEPT !.viol = @ \cup vs]
@@ -160,19 +164,41 @@ MergeApps(apps, doc) ==
      IF k = 0 THEN apps[i]
      ELSE [apps[i] EXCEPT !.cohort = MergeCohort(@, doc.apps[k].cohort), !.uc = DocDays(doc)]]
 
+StoredFi(store) ==
+  IF Has(store, "consecutive_failed_install_attempts")
+    THEN LET f == store["consecutive_failed_install_attempts"] IN
+         IF f < 0 \/ f >= BIG THEN [unk |-> TRUE, v |-> 0] ELSE [unk |-> FALSE, v |-> f]
+    ELSE [unk |-> FALSE, v |-> 0]
+GoodTime(store, k) == Has(store, k) /\ ~Has(store[k], "bad")
+
 StartRun(g, run, store) ==
   LET sp == StoredPoll(store)
-      sf == StoredFails(store) IN
+      sf == StoredFails(store)
+      si == StoredFi(store) IN
   [g EXCEPT !.cup = run.cup, !.mode = run.mode, !.kid = run.kid, !.apps = LoadApps(run.apps, store), !.sys = run.sys,
             !.os = run.os, !.invalid = \E i \in 1..Len(run.apps) : AppInvalid(run.apps[i]),
             !.dead = FALSE, !.poll = sp.v, !.pollUnk = sp.unk, !.fails = sf.v, !.failsUnk = sf.unk,
             !.lut = StoredLut(store), !.unauth = FALSE, !.pp = "none", !.consent = FALSE, !.params = NoParams,
             !.post = "none", !.rebootExp = FALSE, !.inWfr = FALSE, !.rbAllowed = "none", !.pingOk = FALSE,
             !.w = WaitInit, !.rbTid = 0, !.rbFired = FALSE, !.rbRearm = FALSE, !.busy = FALSE,
-            !.c = CheckInit, !.started = TRUE]
+            !.c = CheckInit, !.started = TRUE, !.snap = store, !.persisting = FALSE, !.cut = FALSE,
+            !.pingFx = "none", !.finSet = FALSE, !.tvSet = "", !.fsWritten = FALSE, !.odPending = FALSE,
+            !.fi = si.v, !.fiUnk = si.unk, !.startTm = 0, !.wfrDone = FALSE,
+            !.wfrPending = GoodTime(store, "update_finish_time") /\ Has(store, "target_version")
+                           /\ store["target_version"] = run.os,
+            !.finish = IF GoodTime(store, "update_finish_time")
+                         THEN [s |-> store["update_finish_time"].s, ns |-> store["update_finish_time"].ns]
+                         ELSE [s |-> 0, ns |-> 0],
+            !.fsPlan = IF Has(store, "install_plan_id") THEN store["install_plan_id"] ELSE ""]
 
-StepCfg(g, e) == StartRun([GhostInit EXCEPT !.viol = g.viol], e.run, e.store)
-StepRestart(g, e) == StartRun(g, e.run, e.store)
+\* C14 transparency: a twin scenario re-runs the preceding healthy script with storage failures injected;
+\* its request / event projection must equal the healthy one.
+StepCfg(g, e) ==
+  LET tw == Has(e.run, "twin") /\ e.run.twin
+      g1 == StartRun(GhostInit, e.run, e.store) IN      \* violations are reported per scenario
+  [g1 EXCEPT !.startTm = e.tm, !.twin = tw, !.cur = <<>>,
+             !.ref = IF tw THEN (IF g.twin THEN g.ref ELSE g.cur) ELSE <<>>]
+StepRestart(g, e) == [StartRun(g, e.run, e.store) EXCEPT !.startTm = e.tm, !.runNo = g.runNo + 1]
 
 (***************************************************************************)
 (* Expected per-app action of the result (C04).                            *)
@@ -190,9 +216,9 @@ ExpAction(c, i) ==
 
 \* the error class the result must carry when the check failed
 LastUc(c) == Last(c.ucs)
+NoWire(c) == c.buildFail \/ c.ucs = <<>>       \* the request could not even be constructed
 ExpErr(g, c) ==
-  IF c.buildFail THEN {"build", "cupdec", "json"}
-  ELSE IF c.ucs = <<>> THEN {"?"}
+  IF NoWire(c) THEN {"build", "cupdec", "json"}
   ELSE LET u == LastUc(c) IN
        IF u.cls \in {"transport", "timeout", "user"} THEN {"transport"}
        ELSE IF u.unauth THEN {"cupval"}
@@ -201,8 +227,7 @@ ExpErr(g, c) ==
        ELSE IF c.planAns = "err" THEN {"plan"}
        ELSE {"?"}
 ExpReason(g, c) ==
-  IF c.buildFail THEN "Internal"
-  ELSE IF c.ucs = <<>> THEN "?"
+  IF NoWire(c) THEN "Internal"
   ELSE LET u == LastUc(c) IN
        IF u.cls \in {"transport", "timeout", "user"} THEN "Network"
        ELSE IF u.unauth THEN "Internal"
@@ -285,6 +310,23 @@ ExpectedReports(c) ==
 \* lost-event metrics expected for an undelivered report at position i
 LostFor(c, i) == IF c.decision = "ok" /\ c.installCalled /\ i = 2 THEN NEventsOf(PerAppReport(c)) ELSE 1
 
+CtxKeys == {"last_update_time", "server_dictated_poll_interval", "consecutive_failed_update_checks"}
+Restrict(r, K) == [k \in (DOMAIN r) \cap K |-> r[k]]
+\* what a context persist must leave in storage, given the in-memory values the ghost expects
+TruncUs(t) == [s |-> t.s, ns |-> (t.ns \div 1000) * 1000]
+ExpCtxDom(g) == (IF IsSome(g.lut.w) THEN {"last_update_time"} ELSE {})
+                \cup (IF IsSome(g.poll) THEN {"server_dictated_poll_interval"} ELSE {})
+                \cup (IF g.fails > 0 THEN {"consecutive_failed_update_checks"} ELSE {})
+ExpCtx(g) ==
+  [k \in ExpCtxDom(g) |->
+     CASE k = "last_update_time" -> TruncUs(g.lut.w[1])
+       [] k = "server_dictated_poll_interval" -> [s |-> g.poll[1], exact |-> TRUE]
+       [] OTHER -> g.fails]
+CtxKnown(g) == ~g.pollUnk /\ ~g.failsUnk /\ ~g.faulty
+AppRec(a) == [cohort |-> a.cohort, uc |-> a.uc]
+AppsCommitted(g, snap) == \A i \in 1..Len(g.apps) : Has(snap, g.apps[i].id) /\ snap[g.apps[i].id] = AppRec(g.apps[i])
+
+
 (***************************************************************************)
 (* Event steps.                                                            *)
 (***************************************************************************)
@@ -305,11 +347,14 @@ StepState(g, e) ==
               \cup Chk("C05", "check-without-consent", g.mode = "oneshot" \/ g.consent)
               \cup Chk("C04", "checking-src", e.src = g.params.src)
               \cup Chk("C05", "invalid-appset-ran", ~g.invalid)
-    IN V([g EXCEPT !.consent = FALSE, !.post = "none",
+    IN V([g EXCEPT !.consent = FALSE, !.post = "none", !.finSet = FALSE, !.tvSet = "", !.fsWritten = FALSE,
                    !.c = [CheckInit EXCEPT !.inCheck = TRUE, !.ann = <<"Checking">>, !.tail = <<"state">>,
                                            !.chkTw = e.tw, !.chkTm = e.tm, !.appsAtStart = g.apps]], vs)
   ELSE IF e.s = "Idle" THEN
     LET vs == Chk("C04", "idle-in-check", ~c.inCheck)
+              \cup (IF CtxKnown(g) THEN Chk("C08", "durable-when-idle", Restrict(g.snap, CtxKeys) = ExpCtx(g))
+                                         \cup Chk("C09", "apps-durable-when-idle", AppsCommitted(g, g.snap))
+                                    ELSE {})
               \cup Chk("C04", "idle-unexpected", g.post \in {"afterResult", "inWfr"})
               \cup Chk("C04", "missing-waiting-for-reboot", ~(g.post = "afterResult" /\ g.rebootExp))
     IN V([g EXCEPT !.post = "none", !.inWfr = FALSE, !.rebootExp = FALSE, !.busy = FALSE,
@@ -334,7 +379,7 @@ StepSched(g, e) ==
   LET c == g.c IN
   IF c.inCheck THEN
     \* the closing ScheduleChange of a check: the outcome is decided here (C08)
-    LET contact == (c.ucs # <<>> /\ LastUc(c).ok /\ ~c.buildFail)       \* the server answered
+    LET contact == (~NoWire(c) /\ LastUc(c).ok)       \* the server answered
         okc == CheckOk(c)
         newFails == IF okc THEN 0 ELSE Inc(g.fails)
         vs == Chk("C08", "last-contact-advanced-without-answer", contact \/ LutEq(e.lut, g.lut))
@@ -353,7 +398,8 @@ StepSched(g, e) ==
 
 StepPstate(g, e) ==
   LET c == g.c
-      g1 == IF g.pp = "announce"
+      g1 == IF g.pp = "maybe" THEN [g EXCEPT !.pp = "persist", !.poll = e.poll, !.pollUnk = FALSE]
+            ELSE IF g.pp = "announce"
               THEN V([g EXCEPT !.pp = "persist"], Chk("C07", "announced-value", g.pollUnk \/ e.poll = g.poll))
               ELSE ObservePoll(g, e.poll, "C07")
       g2 == IF c.inCheck THEN [g1 EXCEPT !.c.tail = PushTail(@, "pstate")] ELSE g1
@@ -387,10 +433,10 @@ StepResult(g, e) ==
                                    /\ (ExpAction(c, i) = "any" \/ e.apps[i].action = ExpAction(c, i)))
                   ELSE {})
           \cup (IF ~e.ok /\ ~okc THEN Chk("C04", "result-error-class", e.err \in ExpErr(g, c)) ELSE {})
-      vs6 == Chk("C06", "response-time-count", c.nRespTime = Len(c.ucs) + (IF c.buildFail THEN 1 ELSE 0))
-          \cup Chk("C06", "requests-per-check", c.rpcSeen /\ c.rpcCount = Len(c.ucs) + (IF c.buildFail THEN 1 ELSE 0)
-                                                /\ (c.rpcOk <=> (c.ucs # <<>> /\ LastUc(c).ok /\ ~c.buildFail)))
-          \cup Chk("C06", "must-retry", c.ucs = <<>> \/ c.buildFail \/
+      vs6 == Chk("C06", "response-time-count", c.jumped \/ c.nRespTime = Len(c.ucs) + (IF NoWire(c) THEN 1 ELSE 0))
+          \cup Chk("C06", "requests-per-check", c.rpcSeen /\ c.rpcCount = Len(c.ucs) + (IF NoWire(c) THEN 1 ELSE 0)
+                                                /\ (c.rpcOk <=> (~NoWire(c) /\ LastUc(c).ok)))
+          \cup Chk("C06", "must-retry", NoWire(c) \/
                      ~(LastUc(c).retry /\ Len(c.ucs) < 3 /\ ~LastUc(c).pollAfterUnk /\ LastUc(c).pollAfter = None))
       vs2 == IF c.tainted
                THEN Chk("C02", "validation-error-result", ~e.ok /\ e.err = "cupval")
@@ -400,18 +446,24 @@ StepResult(g, e) ==
       vs10 == Chk("C10", "reports", sentReps = exp)
           \cup Chk("C10", "lost-count", c.lostSeen = c.lostExp)
       vsf == IF okc THEN Chk("C08", "attempts-metric", c.attCheck) ELSE Chk("C08", "failure-reason-metric", c.failReason = ExpReason(g, c))
+      attExp == okc /\ c.installCalled /\ (HasFailed(c) \/ AnyInstalled(c))
+      vs18 == Chk("C18", "install-attempts-metric", c.attInst = attExp)
       rebootExp == okc /\ c.decision = "ok" /\ c.installCalled /\ ~HasFailed(c) /\ c.needed = "yes"
   IN V([g EXCEPT !.c.inCheck = FALSE, !.c.nResult = @ + 1,
                  !.post = IF g.mode = "start" THEN "afterResult" ELSE "none",
                  !.rebootExp = rebootExp,
                  !.lastInstallNoFail = okc /\ c.installCalled /\ ~HasFailed(c)],
-       vs4 \cup vs6 \cup vs2 \cup vs10 \cup vsf)
+       vs4 \cup vs6 \cup vs2 \cup vs10 \cup vsf \cup vs18)
 
 StepEv(g, e) ==
   LET c == g.c
-      g0 == IF g.pp = "announce" /\ e.e # "pstate"
+      ga == IF g.pp = "announce" /\ e.e # "pstate"
               THEN V([g EXCEPT !.pp = "none"], {<<"C07", "change-not-announced-first">>})
-              ELSE g IN
+              ELSE g
+      \* C13: every progress value the installer reported is delivered before anything else is announced
+      g0 == IF e.e # "progress" /\ c.inCheck /\ c.progTaken # c.progRep
+              THEN V([ga EXCEPT !.c.progTaken = c.progRep], {<<"C13", "progress-lost">>})
+              ELSE ga IN
   CASE e.e = "state" -> StepState(g0, e)
     [] e.e = "sched" -> StepSched(g0, e)
     [] e.e = "pstate" -> StepPstate(g0, e)
@@ -457,7 +509,7 @@ ParamChecks(g, e, P) ==
 AfterExchange(g, a) ==
   IF Authentic(g, a)
     THEN LET x == XraOf(a.xra) IN
-         IF x.unk \/ g.pollUnk THEN [g EXCEPT !.pollUnk = TRUE, !.pp = "none"]
+         IF x.unk \/ g.pollUnk THEN [g EXCEPT !.pollUnk = TRUE, !.pp = "maybe"]
          ELSE IF x.v # g.poll THEN [g EXCEPT !.poll = x.v, !.pp = "announce"]
          ELSE g
     ELSE IF Unauth(g, a) THEN [g EXCEPT !.unauth = TRUE] ELSE g
@@ -544,7 +596,9 @@ StepHttpPing(g, e) ==
       vs2 == Chk("C12", "ping-before-timers", g.w.ph = "armed" /\ g.w.untilFired /\ (g.w.forTid = 0 \/ g.w.forFired))
              \cup Chk("C06", "ping-session-fresh", e.req.sid \notin g.usedSids)
   IN V([g2 EXCEPT !.usedRids = @ \cup {e.req.rid}, !.usedSids = @ \cup {e.req.sid},
-                  !.fails = IF okp THEN 0 ELSE Inc(@),
+                  \* the failure count changes after the header step has been persisted
+                  !.fails = IF g1.pp # "none" THEN @ ELSE IF okp THEN 0 ELSE Inc(@),
+                  !.pingFx = IF g1.pp # "none" THEN (IF okp THEN "zero" ELSE "inc") ELSE "none",
                   !.apps = IF okp THEN MergeApps(@, a.body.doc) ELSE @,
                   !.pingOk = okp, !.pingTm = e.tm, !.w = WaitInit], vs \cup vs2)
 
@@ -558,6 +612,23 @@ StepMet(g, e) ==
                         Chk("C06", "requests-per-check-once", ~c.rpcSeen))
     [] e.m = "lost" -> [g EXCEPT !.c.lostSeen = @ + 1]
     [] e.m = "fail_reason" -> [g EXCEPT !.c.failReason = e.r]
+    [] e.m = "att_install" ->
+         \* C18: consecutive failed install attempts, reported with every install that failed or installed something
+         LET okI == c.installCalled /\ ~HasFailed(c) IN
+         V([g EXCEPT !.c.attInst = TRUE, !.fi = IF okI THEN 0 ELSE Inc(@)],
+           Chk("C18", "install-attempts-once", ~c.attInst)
+           \cup Chk("C18", "install-attempts-successful", e.ok = okI)
+           \cup (IF g.fiUnk THEN {} ELSE Chk("C18", "install-attempts-count", e.count = Inc(g.fi))))
+    [] e.m = "waited" ->
+         \* C18: waited-for-reboot = finish .. start of this state machine, exactly once, only on the target version
+         LET dns == 123456789 - g.finish.ns
+             borrow == IF dns < 0 THEN 1 ELSE 0
+             es == (e.tw - g.finish.s) - (e.tm - g.startTm) - borrow
+             ens == IF dns < 0 THEN dns + 1000000000 ELSE dns IN
+         V([g EXCEPT !.wfrPending = FALSE, !.wfrDone = TRUE],
+           Chk("C18", "waited-only-on-target-version", g.wfrPending)
+           \cup Chk("C18", "waited-once", ~g.wfrDone)
+           \cup (IF g.c.jumped THEN {} ELSE Chk("C18", "waited-duration", e.d = [s |-> es, ns |-> ens])))
     [] e.m = "att_check" ->
          V([g EXCEPT !.c.attCheck = TRUE],
            IF g.failsUnk THEN {} ELSE Chk("C08", "attempts-to-successful-check", e.count = Inc(g.fails)))
@@ -631,6 +702,14 @@ StepPolNext(g, e) ==
       vs == (IF g.failsUnk THEN {} ELSE Chk("C08", "policy-sees-failure-count", e.ps.fails = g.fails))
          \cup Chk("C08", "policy-sees-last-contact", e.sched.lut = g.lut)
          \cup Chk("C09", "policy-sees-apps", e.apps = g.apps)
+         \cup (IF g.wfrPending /\ ~g.inWfr /\ ~g.c.jumped
+                 THEN Chk("C18", "waited-not-reported",
+                          \* still pending is fine only if the clocks are inconsistent: finish in the future
+                          \* or less wall time than monotonic time has passed since the start
+                          LET dns == 123456789 - g.finish.ns
+                              ws == (e.tw - g.finish.s) - (IF dns < 0 THEN 1 ELSE 0) IN
+                          ws < 0 \/ ws < (e.tm - g.startTm))
+                 ELSE {})
   IN V([g1 EXCEPT !.fails = IF g.failsUnk THEN e.ps.fails ELSE @, !.failsUnk = FALSE], vs)
 
 StepPlan(g, e) ==
@@ -655,14 +734,21 @@ StepInstBegin(g, e) ==
          \cup Chk("C02", "install-after-unauthenticated", ~c.tainted)
          \cup Chk("C13", "install-before-installing-taken", "Installing" \in Range(c.ann))
          \cup Chk("C05", "install-twice", ~c.installCalled)
-  IN V([g EXCEPT !.c.installCalled = TRUE], vs)
+         \cup (IF g.faulty THEN {} ELSE Chk("C18", "first-seen-recorded", g.fsPlan = c.planId))
+  IN V([g EXCEPT !.c.installCalled = TRUE, !.fsWritten = FALSE], vs)
 
 StepInstall(g, e) == [g EXCEPT !.c.results = e.ans.results]
 
 StepRbNeeded(g, e) ==
   LET c == g.c
-      vs == Chk("C05", "reboot-needed-only-after-clean-install", c.inCheck /\ c.installCalled /\ ~HasFailed(c)) IN
-  V([g EXCEPT !.c.needed = IF e.ans THEN "yes" ELSE "no"], vs)
+      vs == Chk("C05", "reboot-needed-only-after-clean-install", c.inCheck /\ c.installCalled /\ ~HasFailed(c))
+         \cup (IF g.faulty THEN {}
+               ELSE Chk("C18", "finish-time-committed-before-reboot", g.finSet /\ Has(g.snap, "update_finish_time"))
+                    \cup Chk("C18", "target-version-committed-before-reboot",
+                             IF IsOfferedId(c, g.sys)
+                               THEN Has(g.snap, "target_version") /\ g.snap["target_version"] = g.tvSet /\ g.tvSet # ""
+                               ELSE g.tvSet = "")) IN
+  V([g EXCEPT !.c.needed = IF e.ans THEN "yes" ELSE "no", !.finSet = FALSE, !.tvSet = ""], vs)
 
 StepRbAllowed(g, e) ==
   LET first == g.rbAllowed = "none" /\ g.rbTid = 0
@@ -681,19 +767,46 @@ StepReboot(g, e) ==
     Chk("C05", "reboot-without-consent", g.inWfr /\ g.lastInstallNoFail /\ g.rbAllowed = "yes")
     \cup Chk("C13", "reboot-before-waiting-taken", g.inWfr))
 
-CtxKeys == {"last_update_time", "server_dictated_poll_interval", "consecutive_failed_update_checks"}
-
 StepSt(g, e) ==
-  LET g1 == IF e.ans = "err" THEN [g EXCEPT !.faulty = TRUE] ELSE g IN
-  IF e.k = "st.commit" /\ g.pp = "persist"
-    THEN V([g1 EXCEPT !.pp = "none"],
-           IF g1.faulty \/ g.pollUnk THEN {}
-           ELSE Chk("C07", "committed-value",
-                    IF IsSome(g.poll)
-                      THEN Has(e.snap, "server_dictated_poll_interval")
-                           /\ e.snap["server_dictated_poll_interval"].exact
-                           /\ e.snap["server_dictated_poll_interval"].s = g.poll[1]
-                      ELSE ~Has(e.snap, "server_dictated_poll_interval")))
+  LET g1 == IF e.ans = "err" THEN [g EXCEPT !.faulty = TRUE] ELSE g
+      okw == e.ans = "ok" IN
+  IF e.k = "st.commit" THEN
+    LET v7 == IF g.pp = "persist" /\ ~g1.faulty /\ ~g.pollUnk
+                THEN Chk("C07", "committed-value",
+                         IF IsSome(g.poll)
+                           THEN Has(e.snap, "server_dictated_poll_interval")
+                                /\ e.snap["server_dictated_poll_interval"].exact
+                                /\ e.snap["server_dictated_poll_interval"].s = g.poll[1]
+                           ELSE ~Has(e.snap, "server_dictated_poll_interval"))
+                ELSE {}
+        \* C08: every commit leaves the context keys equal to ONE in-memory snapshot
+        v8 == IF CtxKnown(g1)
+                THEN IF g.persisting
+                       THEN Chk("C08", "commit-is-current-context", Restrict(e.snap, CtxKeys) = ExpCtx(g))
+                       ELSE Chk("C08", "commit-keeps-context", Restrict(e.snap, CtxKeys) = Restrict(g.snap, CtxKeys))
+                ELSE {}
+        fx == IF g.pp = "persist" THEN g.pingFx ELSE "none"   \* (ApplyPingFx, at the commit that ends the header step)
+    IN V([g1 EXCEPT !.pp = IF @ = "persist" THEN "none" ELSE @,
+                    !.fails = CASE fx = "inc" -> Inc(@) [] fx = "zero" -> 0 [] OTHER -> @,
+                    !.pingFx = IF g.pp = "persist" THEN "none" ELSE @,
+                    !.snap = IF okw THEN e.snap ELSE @, !.persisting = FALSE], v7 \cup v8)
+  ELSE IF e.key = "last_update_time" THEN [g1 EXCEPT !.persisting = TRUE]
+  ELSE IF e.key = "update_first_seen_time" /\ e.k = "st.set" THEN
+    \* C18: first-seen is (re)written only for a plan different from the recorded one
+    V(g1, Chk("C18", "first-seen-reset", g.c.inCheck /\ g.c.planAns = "ok" /\ (g.fsWritten \/ g.faulty)))
+  ELSE IF e.key = "install_plan_id" /\ e.k = "st.set" THEN
+    V([g1 EXCEPT !.fsPlan = IF okw THEN e.v ELSE @, !.fsWritten = TRUE],
+      Chk("C18", "first-seen-reset", g.c.inCheck /\ g.c.planAns = "ok" /\ e.v = g.c.planId /\ (g.fsPlan # e.v \/ g.faulty)))
+  ELSE IF e.key = "update_finish_time" /\ e.k = "st.set" THEN
+    V([g1 EXCEPT !.finSet = TRUE],
+      Chk("C18", "finish-time-only-after-clean-install", g.c.inCheck /\ g.c.installCalled /\ ~HasFailed(g.c)))
+  ELSE IF e.key = "target_version" /\ e.k = "st.set" THEN
+    V([g1 EXCEPT !.tvSet = e.v],
+      Chk("C18", "target-version-is-system-app",
+          g.c.inCheck /\ IsOfferedId(g.c, g.sys)
+          /\ e.v = (IF NextVerOf(g.c, g.sys) = "None" THEN "UNKNOWN" ELSE NextVerOf(g.c, g.sys))))
+  ELSE IF e.key \in {"update_finish_time", "target_version"} /\ e.k = "st.rm" THEN
+    V(g1, Chk("C18", "record-cleared-only-after-report", g.wfrDone))
   ELSE g1
 
 \* while a poll-interval change awaits its announcement and commit, nothing else may happen (C07)
@@ -710,7 +823,7 @@ StepCtlSend(g, e) ==
   LET up == (g.busy \/ g.inWfr \/ g.c.inCheck) /\ e.src = "ondemand" IN
   [g EXCEPT !.ctlOut = @ \cup {e.req},
             !.ctlSrc = Append(@, [req |-> e.req, src |-> e.src, busyAtSend |-> g.busy, nPol |-> g.nPolCheck,
-                                  dead |-> g.dead]),
+                                  dead |-> g.dead, run |-> g.runNo]),
             !.optSrc = IF up THEN "ondemand" ELSE @,
             !.odPending = @ \/ (g.inWfr /\ e.src = "ondemand")]
 
@@ -727,13 +840,14 @@ StepCtlReply(g, e) ==
                  [] e.ans = "already" ->
                       Chk("C11", "already-truthful", g.busy \/ g.inWfr \/ g.c.inCheck \/ g.post # "none")
                  [] e.ans = "gone" ->
-                      Chk("C11", "gone-truthful", g.dead)
+                      Chk("C11", "gone-truthful", g.dead \/ r.run < g.runNo)
                  [] OTHER -> {<<"C11", "unknown-reply">>})
   IN V([g EXCEPT !.ctlOut = @ \ {e.req},
                  !.servedAt = IF e.ans \in {"started", "throttled"} THEN pc.n ELSE @], vs)
 
 StepEnd(g, e) ==
-  V(g, Chk("C11", "request-never-answered", g.ctlOut = {}))
+  V(g, Chk("C11", "request-never-answered", g.ctlOut = {})
+       \cup Chk("C14", "check-without-result", ~g.c.inCheck \/ g.cut \/ g.panicked))
 
 GhostStep0(g, e) ==
   CASE e.k = "cfg" -> StepCfg(g, e)
@@ -760,20 +874,53 @@ GhostStep0(g, e) ==
     [] e.k = "ctl.reply" -> StepCtlReply(g, e)
     [] e.k = "end" -> StepEnd(g, e)
     [] e.k = "cupd" -> [g EXCEPT !.c.buildFail = TRUE]
+    [] e.k \in {"cut", "dropstream"} -> [g EXCEPT !.cut = TRUE, !.dead = (e.k = "dropstream") \/ @]
     [] e.k = "clock" -> [g EXCEPT !.c.jumped = TRUE]
     [] e.k = "panic" -> V([g EXCEPT !.panicked = TRUE], {<<"C14", "panic">>})
     [] e.k = "hang" -> V(g, IF e.what = "runaway" THEN {<<"C14", "hang">>} ELSE {<<"C13", "lost-wakeup">>, <<"C14", "hang">>})
     [] e.k = "crash" -> [g EXCEPT !.dead = TRUE, !.c = CheckInit, !.pp = "none"]
     [] e.k = "ev.end" -> V([g EXCEPT !.dead = TRUE],
                            Chk("C04", "stream-ends-in-check", ~g.c.inCheck)
+                           \cup (IF CtxKnown(g) /\ g.mode = "oneshot" /\ ~g.invalid
+                                   THEN Chk("C08", "durable-at-stream-end", Restrict(g.snap, CtxKeys) = ExpCtx(g))
+                                        \cup Chk("C09", "apps-durable-at-stream-end", AppsCommitted(g, g.snap))
+                                   ELSE {})
                            \cup Chk("C04", "one-shot-one-result", g.mode # "oneshot" \/ g.invalid \/ g.c.nResult = 1))
     [] OTHER -> g
 
+\* C14: what must not depend on storage health - the requests sent and the events announced
+Proj(e) ==
+  IF e.k \in {"http.uc", "http.ev", "http.ping"} THEN <<e.k, e.req, e.hdr>>
+  ELSE IF e.e = "state" THEN <<"state", e.s>>
+  ELSE IF e.e = "pstate" THEN <<"pstate", e.poll, e.fails>>
+  ELSE IF e.e = "result" THEN <<"result", e.ok, e.err, e.apps>>
+  ELSE IF e.e = "progress" THEN <<"progress", e.p>>
+  ELSE IF e.e = "resp" THEN <<"resp", e.apps>>
+  ELSE <<e.e>>
+Projected(e) == e.k \in {"http.uc", "http.ev", "http.ping", "ev"}
+
+Transparent(g, e) ==
+  IF Projected(e) THEN
+    LET p == Proj(e)
+        n == Len(g.cur) + 1 IN
+    V([g EXCEPT !.cur = Append(@, p)],
+      IF g.twin THEN Chk("C14", "storage-failure-changed-behaviour", n <= Len(g.ref) /\ g.ref[n] = p) ELSE {})
+  ELSE IF e.k = "end" /\ g.twin /\ ~g.panicked
+    THEN V(g, Chk("C14", "storage-failure-cut-behaviour-short", Len(g.cur) = Len(g.ref)))
+  ELSE g
+
+ApplyPingFx(g) == [g EXCEPT !.fails = CASE g.pingFx = "inc" -> Inc(@) [] g.pingFx = "zero" -> 0 [] OTHER -> @,
+                            !.pingFx = "none"]
+Neutral(e) == e.k \in {"cupv", "met", "ctl.send", "ctl.reply", "ctl.drop", "tm.fire", "clock"}
+
 GhostStep(g, e) ==
-  LET g0 == IF g.pp # "none" /\ Interrupts(e)
-              THEN V([g EXCEPT !.pp = "none"], {<<"C07", "flow-continued-before-commit">>})
+  LET ga == IF g.pp = "maybe" /\ ~Neutral(e) /\ ~(e.k = "ev" /\ e.e = "pstate")
+              THEN ApplyPingFx([g EXCEPT !.pp = "none"])     \* the unconstrained header changed nothing
               ELSE g
-  IN GhostStep0(g0, e)
+      g0 == IF ga.pp \in {"announce", "persist"} /\ Interrupts(e)
+              THEN V([ga EXCEPT !.pp = "none"], {<<"C07", "flow-continued-before-commit">>})
+              ELSE ga
+  IN Transparent(GhostStep0(g0, e), e)
 
 Props == {"C02", "C03", "C04", "C05", "C06", "C07", "C08", "C09", "C10", "C11", "C12", "C13", "C14", "C18"}
 ViolOf(g, p) == {v \in g.viol : v[1] = p}
